@@ -1053,17 +1053,21 @@ def run_git_refs_stream(ctx, nscen):
                         ('skills', 'bar', 'SKILL.md'): b'---\nname: bar\ndescription: d\n---\nbar-' + v + b'\n',
                         ('README.md',): b'readme ' + v + b'\n'}
             c1 = gw.commit(tree(b'v1'), 'c1')
-            gw.tag('v1', rng.random() < 0.5)
+            # tag names made of hex digits only (a date, a build number): names, not commit ids
+            t1 = rng.choice(['v1', 'v1', '20240601', 'cafe123', 'deadbeef00'])
+            gw.tag(t1, rng.random() < 0.5)
             c2 = gw.commit(tree(b'v2'), 'c2')
+            t2 = None
             if rng.random() < 0.5:
-                gw.tag('v2', rng.random() < 0.5)
+                t2 = rng.choice(['v2', '20240702', 'abcdef1'])
+                gw.tag(t2, rng.random() < 0.5)
             gw.publish()
-            refs = {'main': c2, 'v1': c1, c1: c1, c2: c2}
-            if 'v2' in gw.git(['tag', '-l'], gw.work).split(): refs['v2'] = c2
+            refs = {'main': c2, t1: c1, c1: c1, c2: c2}
+            if t2: refs[t2] = c2
             names = sorted(refs)
             chosen = rng.sample(names, rng.choice([2, 2, 3]))
             if len({refs[r] for r in chosen}) < 2:
-                chosen = ['main', 'v1'] + chosen[2:]
+                chosen = ['main', t1] + chosen[2:]
             codex_home = os.path.join(sb.home, 'codex_home'); os.makedirs(codex_home)
             mods = []
             for k, r in enumerate(chosen):
